@@ -351,7 +351,8 @@ SPECIAL = ["time", "frame", "index_online"]
 NONSC = ["image", "mask", "contour", "trace"]
 LOGLINES = [["a line"], ["x" * 120, "ü-line", ""], ["one", "two", "three"]]
 LOGNAMES = ["acq-log", "cfg-ü", "dclab-compress", "dclab-condense"]
-OUTNAMES = ["out.rtdc", "out", "res.v1.rtdc"]
+# "@in/..." = next to the first input, same stem, foreign suffix; upper-case suffix
+OUTNAMES = ["out.rtdc", "out", "res.v1.rtdc", "@in/measa.zst", "OUT.RTDC"]
 
 
 @st.composite
@@ -724,15 +725,18 @@ def _build(spec, su):
     outs = []
     if task in ("compress", "condense", "repack", "join"):
         name = spec["out"]
-        su.out_arg = pathlib.Path("out") / name
-        outs = [pathlib.Path("out") / (name if name.endswith(".rtdc") else name + ".rtdc")]
+        odir = pathlib.Path("out")
+        if name.startswith("@in/"):
+            odir, name = pathlib.Path("in"), name[4:]
+        su.out_arg = odir / name
+        outs = [odir / (name if name.endswith(".rtdc") else name + ".rtdc")]
     elif task == "tdms2rtdc":
         if spec["opts"]["dirmode"]:
             su.out_arg = pathlib.Path("out") / "conv"
             outs = [su.out_arg / p.relative_to("in").with_suffix(".rtdc")
                     for p in su.inputs]
         else:
-            name = spec["out"]
+            name = spec["out"].replace("@in/", "")
             su.out_arg = pathlib.Path("out") / name
             outs = [pathlib.Path("out") / (name if name.endswith(".rtdc")
                                            else name + ".rtdc")]
